@@ -141,7 +141,8 @@ def rand_test(rng, ctx):
     if r < 0.2:
         return ['false']
     if r < 0.5:
-        return ['num', rand_operand(rng, ctx), rng.choice('<>='), rand_operand(rng, ctx), rng.choice(['relax', 'relax', 'space'])]
+        return ['num', rand_operand(rng, ctx), rng.choice('<>='), rand_operand(rng, ctx), rng.choice(['relax', 'relax', 'space']),
+                rng.choice(['', '', '', 'neg'])]
     if r < 0.6:
         return ['odd', rand_operand(rng, ctx), rng.choice(['relax', 'relax', 'space'])]
     if r < 0.7:
